@@ -157,7 +157,7 @@ def run_plan(b, inj, batch, fplan, base, mcs_ids, res, tag, base_dt=None, confir
                     res.viol("earlier_fault_leaked_into_later_clean_run", case={"reaction": batch[i]},
                              fault_free=view(r0), later_clean_run=view(r), row_index=i, **w)
                     break
-        time.sleep(6.0)  # let the abandoned threads finish before the next plan
+        time.sleep(13.0)  # let the abandoned threads finish before the next plan
     # re-read after the zombies: returned rows must not have changed under our feet
     rows2 = [view(r) for r in rows]
     if any(a != view(b_) for a, b_ in zip(rows2, rows)):
@@ -250,7 +250,7 @@ def build_plans(rng, jobs, frag_ids, shard):
     if frag_ids and shard.get("long_hangs"):
         # every fragment analysis hangs long after its 2 s wait expired; the batch is then run again at once,
         # fault-free, while the abandoned threads are still alive
-        plans.append(("frag_hang_all_then_rerun", {"frag": {rid: ["delay", 7.0] for rid in frag_ids},
+        plans.append(("frag_hang_all_then_rerun", {"frag": {rid: ["delay", 13.0] for rid in frag_ids},
                                                    "rerun_clean": True}))
     for extra in shard["extra_delays"]:
         for k in rng.sample(keys, min(len(keys), shard.get("n_extra", 4))):
